@@ -47,6 +47,7 @@ type transparentNATEntry struct {
 
 // transparentUplink is used for passing information about relay uplink to the relay goroutine.
 type transparentUplink struct {
+	state          *atomic.Pointer[net.UDPConn]
 	clientName     string
 	clientAddrPort netip.AddrPort
 	natConn        *conn.MmsgWConn
@@ -348,6 +349,7 @@ func (s *UDPTransparentRelay) recvFromServerConnRecvmmsg(ctx context.Context, ln
 
 					s.wg.Go(func() {
 						s.relayServerConnToNatConnSendmmsg(ctx, transparentUplink{
+							state:          &entry.state,
 							clientName:     clientInfo.Name,
 							clientAddrPort: clientAddrPort,
 							natConn:        natConn.NewWConn(),
@@ -514,6 +516,13 @@ main:
 				zap.Duration("natTimeout", uplink.natTimeout),
 				zap.Error(err),
 			)
+		}
+
+		// Stop swaps the session state before expiring natConn's read deadline.
+		// If that happened while the deadline was being re-armed above, expire it again,
+		// or the downlink would keep Stop waiting for a full NAT timeout.
+		if uplink.state.Load() != uplink.natConn.UDPConn {
+			_ = uplink.natConn.SetReadDeadline(conn.ALongTimeAgo)
 		}
 
 		qpvecn := qpvec[:count]
